@@ -242,8 +242,11 @@ func ruleR07b(h *H) {
 }
 
 func ruleR07c(h *H) {
-	const rule = "R07c"
-	h.Rule(rule, "K1", "apply loops: between reading an entry and asking the reader for the next one, the entry is applied (or the loop is left); a failed apply leaves the loop; the forward reader's position advances by one only after a successful read", 4)
+	h.Rule("R07c", "K1", "apply loops: between reading an entry and asking the reader for the next one, the entry is applied (or the loop is left); a failed apply leaves the loop; the forward reader's position advances by one only after a successful read", 4)
+	ruleR07cInto(h, "R07c")
+}
+
+func ruleR07cInto(h *H, rule string) {
 	n := 0
 	for _, fn := range h.P.Funcs {
 		if ir.RelPkg(ir.PkgPathOf(fn)) != "server" {
